@@ -14,6 +14,11 @@ tortuous branches (chord << path) with spacings between chord and path length, c
 with radius steps inserted on every edge, spacing = branch length / ratio (exact multiples,
 slightly above a multiple, branch shorter than the spacing), permuted branch lists for the
 assembler, sibling branches that end at one position, and seeded random combinations.
+
+Degenerate geometry is part of the input space of every entry point (see "degenerate geometry"): duplicated first / middle /
+last node of a branch (same and other radius, runs of 2 and 3), all nodes coincident, two-node branches, and inside trees a
+duplicated node at a tip / on a furcation / on the soma and whole zero-length branches.  Every output number must be finite
+(clause `output-finite`); tolerance tests are written so that a NaN fails them (`exceeds`).
 """
 from __future__ import annotations
 
@@ -25,6 +30,20 @@ import numpy as np
 from .common import all_sorted_tables_upto, children_of, coords_for, make_tree, random_sorted_table
 
 TOL = 1e-4
+
+
+def exceeds(v, tol=TOL):
+    """v > tol, and True as well when v is NaN (`nan > tol` is False: a NaN must never pass a tolerance test)"""
+    return not (v <= tol)
+
+
+def all_finite(*arrays):
+    return all(bool(np.all(np.isfinite(np.asarray(a, dtype=np.float64)))) for a in arrays)
+
+
+def non_finite_rows(a):
+    a = np.asarray(a, dtype=np.float64).reshape(len(a), -1)
+    return [int(i) for i in np.nonzero(~np.isfinite(a).all(axis=1))[0]]
 
 
 # ----------------------------------------------------------------------------- geometry helpers
@@ -418,6 +437,14 @@ def check_resample_tree(rep, spec):
     if not table_ok(opid) or [int(v) for v in out.id()] != list(range(len(opid))):
         rep(carrier, "critical-nodes-kept", spec, f"output is not a single-rooted tree table: id={list(map(int, out.id()))} pid={opid}", "a tree")
         return
+    if not all_finite(oxyz, orr):
+        # every output number is finite; NaN would slip through every `> TOL` below (and pair with anything), so stop here
+        bad = non_finite_rows(np.concatenate([oxyz, orr[:, None]], axis=1))
+        rep(carrier, "output-finite", spec, f"non-finite x/y/z/r at output nodes {bad[:8]}: {[oxyz[i].tolist() + [float(orr[i])] for i in bad[:3]]}", "every output coordinate and radius finite")
+        _, cb, _ = cut_branches(opid)
+        if any(i in cb for i in bad):
+            rep(carrier, "critical-nodes-kept", spec, f"critical output nodes {[i for i in bad if i in cb][:8]} are not finite", "root/furcations/tips at their positions", variant="non-finite")
+        return
     A = (list(pid), xyz.astype(np.float64), r.astype(np.float64))
     B = (opid, oxyz, orr)
     pairing = pair_branches(A, B)
@@ -567,12 +594,17 @@ def check_branch_resampler(rep, spec):
         return
     if len(o) == 1 and spec["op"] == "isometric" and L <= TOL:
         # a zero-length branch: both end points are the same position, one sample there carries them
-        if float(np.abs(o[0, :3] - Pin[0]).max()) > TOL or min(abs(o[0, 3] - x) for x in Rin) > TOL:
+        if not all_finite(o):
+            rep(carrier, "output-finite", spec, f"non-finite single point {o[0].tolist()}", "every output coordinate and radius finite")
+        if exceeds(float(np.abs(o[0, :3] - Pin[0]).max())) or exceeds(min(abs(o[0, 3] - x) for x in Rin)):
             rep(carrier, "branch-endpoints-kept", spec, f"single point {o[0].tolist()}", f"position {Pin[0].tolist()} with one of the radii {Rin.tolist()}")
         return
     if len(o) < 2:
         rep(carrier, "branch-endpoints-kept", spec, f"{len(o)} point(s): {o.tolist()}", "both end points")
         return
+    if not all_finite(o):
+        bad = non_finite_rows(o)
+        rep(carrier, "output-finite", spec, f"non-finite x/y/z/r at output points {bad[:8]} of {len(o)}: {[o[i].tolist() for i in bad[:3]]}", "every output coordinate and radius finite")
     e0 = float(np.abs(o[0, :3] - Pin[0]).max())
     e1 = float(np.abs(o[-1, :3] - Pin[-1]).max())
     # Radii are a function of arc length.  Where a zero-length first / last segment gives several input nodes the
@@ -581,17 +613,145 @@ def check_branch_resampler(rep, spec):
     S = arc_lengths(Pin)
     r0 = min(abs(o[0, 3] - Rin[k]) for k in range(len(Rin)) if S[k] <= TOL)
     r1 = min(abs(o[-1, 3] - Rin[k]) for k in range(len(Rin)) if S[k] >= L - TOL)
-    if max(e0, e1) > TOL:
+    ends_r_ok = not (exceeds(r0) or exceeds(r1))
+    if exceeds(e0) or exceeds(e1):
         rep(carrier, "branch-endpoints-kept", spec, f"ends at {o[0, :3].tolist()} and {o[-1, :3].tolist()}", f"{Pin[0].tolist()} and {Pin[-1].tolist()}", variant="position")
-    elif max(r0, r1) > TOL:
+    elif not ends_r_ok:
         rep(carrier, "branch-endpoints-kept", spec, f"end radii {o[0, 3]:.4f}, {o[-1, 3]:.4f}", f"{Rin[0]:.4f}, {Rin[-1]:.4f}", variant="radius")
+    if not all_finite(o):
+        return  # distances to / along the polyline are not defined for non-finite samples (reported above)
     epos, erad, eline, step = branch_deviation(Pin, Rin, o[:, :3], o[:, 3])
-    if eline > TOL:
+    if exceeds(eline):
         rep(carrier, "samples-on-polyline", spec, f"a sample is {eline:.5f} off the polyline", f"<= {TOL}")
-    if epos > TOL or (spec["op"] == "isometric" and step > spec["distance"] * (1 + 1e-6) + 1e-6):
+    if exceeds(epos) or (spec["op"] == "isometric" and step > spec["distance"] * (1 + 1e-6) + 1e-6):
         rep(carrier, "equal-steps-not-longer-than-spacing", spec, f"points {np.round(o[:, :3], 4).tolist()[:8]} (max offset {epos:.5f}, step {step:.5f})", "equal arc-length steps" + (f" <= {spec['distance']}" if spec["op"] == "isometric" else ""))
-    elif erad > TOL and max(r0, r1) <= TOL:
+    elif exceeds(erad) and ends_r_ok:
         rep(carrier, "radius-linear", spec, f"radii {np.round(o[:, 3], 4).tolist()[:10]} off by {erad:.5f}", f"linear between knot radii {Rin.tolist()}")
+
+
+# ----------------------------------------------------------------------------- degenerate geometry (generic)
+# Coincident consecutive nodes are ordinary in reconstructions (a point clicked twice, a branch point traced again as the first
+# point of the daughter).  Every entry point gets them: at the first / a middle / the last node of a branch, with the same and
+# with another radius, in runs of 2 and 3, and as whole branches of length zero.
+DEGENERATE_BASES = ("straight2", "diag2-length3", "tiny2", "bent3", "inexact3", "zigzag4", "offset-origin4", "uneven5")
+
+
+def duplicate_node(b, j, copies, dr):
+    """the branch with `copies` extra nodes at the position of node j, right after it: a run of copies + 1 coincident nodes
+    (copies zero-length segments).  dr = 0: identical nodes, else the radii along the run step by dr."""
+    b = [[float(v) for v in row] for row in b]
+    run = [b[j][:3] + [max(0.05, b[j][3] + dr * (c + 1))] for c in range(copies)]
+    return b[:j + 1] + run + b[j + 1:]
+
+
+def coincident_branch(k, at, dr):
+    """k nodes at one position: a branch of total length zero"""
+    return [[float(v) for v in at] + [max(0.05, 1.0 + dr * i)] for i in range(k)]
+
+
+def degenerate_branches():
+    """yields (input family, how it was made, xyzr)"""
+    for name in DEGENERATE_BASES:
+        b = BRANCHES[name]
+        if len(b) == 2:
+            yield "two-node", dict(base=name), [[float(v) for v in row] for row in b]
+        where = [("first", 0), ("last", len(b) - 1)] + ([("middle", len(b) // 2)] if len(b) >= 3 else [])
+        for pos, j in where:
+            for copies in (1, 2):
+                for dr in (0.0, 0.75):
+                    yield f"duplicated-{pos}-node" + ("-run3" if copies == 2 else ""), dict(base=name, node=j, copies=copies, dr=dr), duplicate_node(b, j, copies, dr)
+        # both ends at once (every segment next to an end point has length zero)
+        yield "duplicated-first-and-last-node", dict(base=name, node=[0, len(b)], copies=1, dr=0.5), duplicate_node(duplicate_node(b, len(b) - 1, 1, 0.5), 0, 1, 0.5)
+    for k in (2, 3, 5):
+        for at in ((0.0, 0.0, 0.0), (1.25, -2.5, 3.0), (100.1, 200.2, 300.3)):
+            for dr in (0.0, 0.5):
+                yield "all-nodes-coincident", dict(nodes=k, at=list(at), dr=dr), coincident_branch(k, at, dr)
+
+
+def degenerate_branch_spacings(b):
+    """[(rule, spacing)]: much larger and much smaller than the branch, about the branch length, and two fixed ones"""
+    _, L = chord_path(b)
+    if L <= 0:
+        return [("fixed", 1e-3), ("fixed", 0.3), ("fixed", 100.0)]
+    return [(f"100 * length {L:.6f}", 100 * L), (f"length {L:.6f} / 150", L / 150), (f"length {L:.6f} / 2.5", L / 2.5), (f"length {L:.6f} / 1", L), ("fixed", 0.3)]
+
+
+def subtree_of(pid, w):
+    ch, st, sub = children_of(pid), [w], []
+    while st:
+        v = st.pop()
+        sub.append(v)
+        st.extend(ch[v])
+    return sub
+
+
+def collapse_chain(pid, xyz, chain):
+    """every node of the chain (a branch: critical node .. next critical node) moved onto its first node, the subtrees
+    hanging below translated with it: a whole branch of length zero between two critical nodes"""
+    out = np.array(xyz, dtype=np.float64, copy=True)
+    for v in chain[1:]:
+        out[subtree_of(pid, v)] += out[chain[0]] - out[v]
+        out[v] = out[chain[0]]
+    return out
+
+
+def edge_place(pid, k, at):
+    """where a coincident node inserted on the edge (pid[k], k) sits: on the soma, on a furcation (child on top of its parent),
+    at the tip of a branch, at the furcation end of a branch, or inside a branch"""
+    nch = lambda v: list(pid).count(v)  # noqa: E731
+    if at == "parent":
+        p = pid[k]
+        return "on-soma" if p == 0 else ("on-furcation" if nch(p) >= 2 else "mid-branch")
+    return "at-tip" if nch(k) == 0 else ("at-furcation-end" if nch(k) >= 2 else "mid-branch")
+
+
+def non_root_furcations(pid):
+    return [v for v in range(1, len(pid)) if list(pid).count(v) >= 2]
+
+
+def degenerate_tree_tables(quick):
+    """[(table, segments per edge)]: every small table plain and with 2-segment edges, plus the larger tables that have a
+    furcation away from the soma (and, 6 nodes, a branch between two such furcations)"""
+    out = [(pid0, s) for pid0 in all_sorted_tables_upto(4, 2) for s in (1, 2)]
+    out += [(pid0, 1) for pid0 in all_sorted_tables_upto(5, 5) if non_root_furcations(pid0)]
+    out += [(pid0, 1) for pid0 in all_sorted_tables_upto(6, 6) if len(non_root_furcations(pid0)) >= 2 and any(pid0[v] in non_root_furcations(pid0) for v in non_root_furcations(pid0))]
+    if not quick:
+        out += [(pid0, 2) for pid0 in all_sorted_tables_upto(5, 5) if non_root_furcations(pid0)] + [(pid0, 1) for pid0 in all_sorted_tables_upto(6, 6) if non_root_furcations(pid0) and (pid0, 1) not in out]
+    return out
+
+
+def degenerate_trees(quick):
+    """yields (input family, how it was made, pid, xyz, r): trees with a run of coincident nodes on an edge (same radius; run
+    of 3 with radius steps) and trees with a whole zero-length branch"""
+    for pid0, s in degenerate_tree_tables(quick):
+        pid1 = expand_table(pid0, s)
+        xyz1, r1 = coords_for(pid1), radii_for(len(pid1))
+        for k in range(1, len(pid1)):
+            for at in ("parent", "child"):
+                place = edge_place(pid1, k, at)
+                if quick and ((place == "mid-branch" and len(pid0) > 3) or (place in ("on-soma", "at-tip") and len(pid0) > 4)):
+                    continue  # inside a branch: also family (2) of derived_tree_cases; soma / tips: the small tables have them all
+                for copies, dr in ((1, 0.0), (2, 0.6)):
+                    pid, xyz, r = pid1, xyz1, r1
+                    for c in range(copies):  # the edge into k keeps its number + c after each insertion at the child end
+                        pid, xyz, r = insert_coincident(pid, xyz, r, k + (c if at == "child" else 0), at, dr)
+                    yield f"duplicated-node-{place}" + ("-run3" if copies == 2 else ""), dict(expanded=[list(pid0), s], inserted=dict(on_edge_to=k, at=at, dr=dr, copies=copies)), pid, xyz, r
+        _, _, br = cut_branches(list(pid1))
+        for c in sorted(br):
+            for chain in br[c]:
+                if quick and c == 0 and len(pid0) > 4 and list(pid1).count(chain[-1]) == 0:
+                    continue  # tips on the soma: the small tables have them all
+                kind = ("tip" if list(pid1).count(chain[-1]) == 0 else "inner") + ("-from-soma" if c == 0 else "")
+                yield f"zero-length-branch-{kind}", dict(expanded=[list(pid0), s], collapsed=[int(v) for v in chain]), pid1, collapse_chain(pid1, xyz1, chain), r1
+
+
+def degenerate_tree_spacings(pid, xyz, most=4):
+    """[(rule, spacing)]: much larger than every branch, much smaller than the shortest positive branch, about a branch, fixed"""
+    Ls = sorted(L for _, L, _ in branch_geometry(pid, xyz) if L > 0)
+    out = [("fixed", 0.3), ("fixed", 100.0)]
+    if Ls:
+        out += [(f"shortest positive branch length {Ls[0]:.6f} / 25", Ls[0] / 25), (f"longest branch length {Ls[-1]:.6f} / 1", Ls[-1])]
+    return out if most >= 4 else (out[:3] if most == 3 else [out[0], out[-1]])
 
 
 # ----------------------------------------------------------------------------- smoothing
@@ -618,6 +778,7 @@ def check_branch_smoother(rep, spec):
         rep(carrier, "smoothing-keeps-ends-count-radii", spec, f"radii {o[:, 3].tolist()}", f"{xyzr[:, 3].tolist()}", variant="radii")
     if not np.all(np.isfinite(o)):
         rep(carrier, "smoothing-keeps-ends-count-radii", spec, f"non-finite coordinates {o.tolist()}", "finite coordinates", variant="finite")
+        rep(carrier, "output-finite", spec, f"non-finite x/y/z/r at nodes {non_finite_rows(o)[:8]}", "every output coordinate and radius finite")
 
 
 def check_tree_smoother(rep, spec):
@@ -645,6 +806,8 @@ def check_tree_smoother(rep, spec):
         rep(carrier, "smoothing-keeps-ends-count-radii", spec, f"end point(s) {moved} moved to {[oxyz[i].tolist() for i in moved][:4]}", f"{[xyz[i].tolist() for i in moved][:4]}", variant="ends")
     if not np.all(np.isfinite(oxyz)):
         rep(carrier, "smoothing-keeps-ends-count-radii", spec, "non-finite coordinates", "finite coordinates", variant="finite")
+    if not all_finite(oxyz, out.r()):
+        rep(carrier, "output-finite", spec, f"non-finite x/y/z/r at nodes {non_finite_rows(np.concatenate([np.asarray(oxyz, dtype=np.float64), np.asarray(out.r(), dtype=np.float64)[:, None]], axis=1))[:8]}", "every output coordinate and radius finite")
     if any(not np.array_equal(t.get_ndata(k), before[k]) for k in before):
         rep(carrier, "smoothing-keeps-ends-count-radii", spec, "the input tree was modified", "input unchanged", variant="input-modified")
 
@@ -889,6 +1052,32 @@ def run(ctx):
                     spec = dict(kind="smooth-tree", family="expanded", window=w, coords=mode, expanded=[list(pid0), s], **tree_input(pid, xyz, radii_for(len(pid)), 1 + 2 * (s % 2)))
                     check_tree_smoother(rep, spec)
                     ctx.case("tree-smooth-expanded", dict(pid=list(pid), coords=mode, window=w))
+    # degenerate geometry for every entry point: duplicated first / middle / last node (same and other radius, runs of 2 and 3), all
+    # nodes coincident (2, 3, 5 nodes), two-node branches; n = 2 .. n >> knot count; spacings >> and << the branch length
+    for family, how, b in degenerate_branches():
+        for nn in (2, 3, 5, 40 * len(b)):
+            spec = dict(kind="resample-branch", op="linear", n=nn, branch="degenerate", family=family, degenerate=how, xyzr=b)
+            check_branch_resampler(rep, spec)
+            ctx.case("branch-degenerate-linear", dict(family=family, n=nn, **how))
+        for rule, delta in degenerate_branch_spacings(b):
+            spec = dict(kind="resample-branch", op="isometric", distance=delta, spacing_rule=rule, branch="degenerate", family=family, degenerate=how, xyzr=b)
+            check_branch_resampler(rep, spec)
+            ctx.case("branch-degenerate-isometric", dict(family=family, distance=delta, **how))
+        for w in sorted({1, 2, 3, 5, len(b), len(b) + 1, 50}):
+            spec = dict(kind="smooth-branch", window=w, branch="degenerate", family=family, degenerate=how, xyzr=b)
+            check_branch_smoother(rep, spec)
+            ctx.case("branch-degenerate-smooth", dict(family=family, window=w, **how), nontrivial=len(b) > 2)
+    # ... and inside trees: a duplicated node at the tip of a branch, on a furcation (child on top of its parent), on the soma, at
+    # the furcation end of a branch, inside a branch; a whole zero-length branch between two critical nodes
+    for family, how, pid, xyz, r in degenerate_trees(quick):
+        for rule, delta in degenerate_tree_spacings(pid, xyz, 4 if (not quick or family.startswith("zero-length-branch")) else (2 if family.endswith("-run3") else 3)):
+            spec = tree_case(family, pid, xyz, r, delta, rule, 1 + 2 * (len(pid) % 2), coords="walk", **how)
+            check_resample_tree(rep, spec)
+            ctx.case("resample-tree-degenerate", {k: v for k, v in spec.items() if k not in ("xyz", "r", "type", "kind")})
+        for w in ((3, 2 * len(pid) + 2) if family.endswith("-run3") else (2, 5)) if quick else (2, 3, 5, 2 * len(pid) + 1, 2 * len(pid) + 2):
+            spec = dict(kind="smooth-tree", family=family, window=w, coords="walk", **how, **tree_input(pid, xyz, r, 1))
+            check_tree_smoother(rep, spec)
+            ctx.case("tree-smooth-degenerate", dict(pid=list(pid), family=family, window=w, **how))
     ctx.rule(f"IsometricResampler: every sorted parent table with <= {nmax} nodes x coordinates (lattice walk, lattice with coincident points, jittered) x spacing {DISTANCES} x root type (1, 3), "
              "plus seeded random trees of 7-14 nodes.  Generic derived families (spacings computed from the float32-stored geometry): "
              "(1) tortuous branches - tables whose chains fold back (hairpin, U-turn, nearly closed loop, exactly closed loop; chord << path length) and small tables with every edge expanded to a "
@@ -903,7 +1092,13 @@ def run(ctx):
              f"BranchLinearResampler(n in {LINEAR_N}: n = 2 and n >> knot count) / BranchIsometricResampler on {len(BRANCHES)} hand-made branches (zero-length segments and runs with radius steps, coincident points, "
              "closed / nearly closed loops, hairpin, U-turn, retraced path, helix, 2-node, tiny, inexact lengths) and random branches (cloud, folded, loop, collinear commensurable), spacings fixed and derived (between chord and path; "
              "length / ratio); BranchConvSmoother windows 1, 2, 3, 4, 5, 6, 8, n+1, 2n+1, 2n+2, 50 (even windows, windows larger than the branch, 2-node branches); TreeSmoother on every table x windows and on expanded "
-             "tables (every branch >= 3 nodes; walk, hairpin, closed) x even / oversized windows: count, id, pid, type, r, end points unchanged, all coordinates finite.  Non-trivial = tree with >= 2 nodes (>= 3 for smoothing).", exhaustive=False)
+             "tables (every branch >= 3 nodes; walk, hairpin, closed) x even / oversized windows: count, id, pid, type, r, end points unchanged, all coordinates finite.  "
+             f"Degenerate geometry for every entry point: {len(DEGENERATE_BASES)} base branches with the first / a middle / the last node duplicated (same radius and radius step, runs of 2 and 3 coincident nodes, both ends at once), "
+             "2, 3, 5 nodes all at one position (total length zero), two-node branches, through BranchLinearResampler (n = 2, 3, 5, 40 x node count), BranchIsometricResampler (spacing 100 x, 1 x, 1/2.5, 1/150 of the length, 0.3; "
+             "0.001, 0.3, 100 for length zero) and BranchConvSmoother (windows 1, 2, 3, 5, n, n+1, 50); trees (small tables plain and with 2-segment edges, larger tables with furcations away from the soma) with a duplicated "
+             "node (run of 2 with equal radius, run of 3 with radius steps) at the tip of a branch, on a furcation (child on top of its parent), on the soma, at the furcation end of a branch, inside a branch, and with a "
+             "whole zero-length branch between two critical nodes (tip and inner), through IsometricResampler (spacings 0.3, 100, shortest branch / 25, longest branch) and TreeSmoother.  "
+             "Every output number (x, y, z, r) of every carrier must be finite (output-finite) and a NaN fails every tolerance test.  Non-trivial = tree with >= 2 nodes (>= 3 for smoothing).", exhaustive=False)
 
 
 def replay(spec):
